@@ -221,7 +221,14 @@ def _sweep_case(draw, max_w=4, max_ops=8):
     r["order"] = list(draw(st.permutations(list(range(m)))))
     n = len(r["ops"])
     # which ops get a symbolic exponent (only eigen families), index of symbol
-    r["sym"] = [draw(st.integers(0, 3)) for _ in range(n)]
+    # exact SWAPs (the product-state relabelling fast path) sprinkled between the other operations
+    if m >= 2:
+        for _ in range(draw(st.integers(0, 3))):
+            pos = draw(st.integers(0, len(r["ops"])))
+            w = list(draw(st.permutations(list(range(m)))))[:2]
+            r["ops"].insert(pos, {"g": ["SwapPow", {"e": draw(st.sampled_from([1.0, 1.0, 3.0, -1.0])), "s": 0.0}], "w": w, "ins": 0})
+        n = len(r["ops"])
+    r["sym"] = [draw(st.sampled_from([0, 0, 0, 0, 1, 2, 3])) for _ in range(n)]  # mostly numeric: long unparameterized prefixes
     r["resolvers"] = draw(st.lists(st.fixed_dictionaries({"a": G.exponents(), "b": G.exponents()}), min_size=0 if draw(st.integers(0, 7)) == 0 else 1, max_size=3))
     r["split"] = draw(st.booleans())
     r["dm"] = draw(st.booleans())
@@ -281,7 +288,9 @@ def oracle_sweep(r):
 
 # ----------------------------------------------------------------------------- classical simulator
 
-CLASSICAL = ["X", "CNOT", "SWAP", "CCX", "CSWAP", "PERM", "CCCX", "X2", "X3", "CX0", "XNEG", "I", "MEASURE_MID"]
+CLASSICAL = ["X", "CNOT", "SWAP", "CCX", "CSWAP", "PERM", "CCCX", "X2", "X3", "CX0", "XNEG", "I", "MEASURE_MID", "XSOP", "SWAPSOP", "XPOS"]
+SOPS = [[[0, 1], [1, 0]], [[0, 0], [1, 1]], [[1, 1]], [[0, 1]], [[0, 0], [0, 1], [1, 0]]]
+POSS = [[[0, 1], [1]], [[0], [0, 1]], [[1], [0]], [[0, 1], [0, 1]]]
 
 
 @st.composite
@@ -291,7 +300,7 @@ def _classical_case(draw, max_w=5, max_ops=10):
     ops = []
     for _ in range(draw(st.integers(1, max_ops))):
         k = draw(st.sampled_from(CLASSICAL))
-        ar = {"X": 1, "X2": 1, "X3": 1, "XNEG": 1, "I": 1, "CNOT": 2, "CX0": 2, "SWAP": 2, "CCX": 3, "CSWAP": 3, "CCCX": 4, "MEASURE_MID": 1}.get(k)
+        ar = {"X": 1, "X2": 1, "X3": 1, "XNEG": 1, "I": 1, "CNOT": 2, "CX0": 2, "SWAP": 2, "CCX": 3, "CSWAP": 3, "CCCX": 4, "MEASURE_MID": 1, "XSOP": 3, "SWAPSOP": 4, "XPOS": 3}.get(k)
         if k == "PERM":
             ar = draw(st.integers(1, min(4, n)))
             w = list(draw(st.permutations(list(range(n)))))[:ar]
@@ -299,13 +308,24 @@ def _classical_case(draw, max_w=5, max_ops=10):
             continue
         if ar > n:
             continue
-        ops.append({"k": k, "w": list(draw(st.permutations(list(range(n)))))[:ar]})
+        o = {"k": k, "w": list(draw(st.permutations(list(range(n)))))[:ar]}
+        if k in ("XSOP", "SWAPSOP"):
+            o["sop"] = draw(st.sampled_from(SOPS))
+        if k == "XPOS":
+            o["pos"] = draw(st.sampled_from(POSS))
+        ops.append(o)
     init = draw(st.integers(0, 2 ** n - 1))
     return {"n": n, "names": names, "ops": ops, "init": init, "init_form": draw(st.sampled_from(["int", "list"])),
             "order": list(draw(st.permutations(list(range(n)))))}
 
 
-def _classical_op(k, qs, perm=None):
+def _classical_op(k, qs, perm=None, o=None):
+    if k == "XSOP":
+        return cirq.X(qs[2]).controlled_by(qs[0], qs[1], control_values=cirq.SumOfProducts([tuple(p) for p in o["sop"]]))
+    if k == "SWAPSOP":
+        return cirq.SWAP(qs[2], qs[3]).controlled_by(qs[0], qs[1], control_values=cirq.SumOfProducts([tuple(p) for p in o["sop"]]))
+    if k == "XPOS":
+        return cirq.X(qs[2]).controlled_by(qs[0], qs[1], control_values=[tuple(v) for v in o["pos"]])
     if k == "X":
         return cirq.X(qs[0])
     if k == "X2":
@@ -345,7 +365,7 @@ def oracle_classical(r):
             c.append(cirq.measure(qs[o["w"][0]], key=f"mid{nmid}"))
             nmid += 1
             continue
-        op = _classical_op(o["k"], [qs[i] for i in o["w"]], o.get("perm"))
+        op = _classical_op(o["k"], [qs[i] for i in o["w"]], o.get("perm"), o)
         c.append(op)
         ops.append((cirq.unitary(op), [order.index(q) for q in op.qubits]))
     c.append(cirq.measure(*order, key="final"))
@@ -371,8 +391,8 @@ def oracle_classical(r):
     if [int(b) for b in sv.measurements["final"]] != want_bits:
         raise Violation("Simulator.simulate measurement of a classical circuit differs from the matrix product")
     kinds = {o["k"] for o in r["ops"]}
-    return {"nontrivial": len(ops) >= 2 and bool(kinds & {"PERM", "CSWAP", "CCX", "CNOT", "CX0", "CCCX", "SWAP"}) and r["init"] != 0,
-            "has_perm": "PERM" in kinds, "has_ctrl0": "CX0" in kinds}
+    return {"nontrivial": len(ops) >= 2 and bool(kinds & {"PERM", "CSWAP", "CCX", "CNOT", "CX0", "CCCX", "SWAP", "XSOP", "SWAPSOP", "XPOS"}) and r["init"] != 0,
+            "has_perm": "PERM" in kinds, "has_ctrl0": "CX0" in kinds, "has_sop": bool(kinds & {"XSOP", "SWAPSOP"})}
 
 
 def oracle_classical_rejects(r):
@@ -406,7 +426,7 @@ SUBCHECKS = [
     SubCheck("entrypoints_wide", _case(max_w=6, max_ops=24, qudits=False), oracle_entrypoints, quick=300, thorough=12000,
              shards_quick=2, shards_thorough=16),
     SubCheck("order_metamorphic", _case(), oracle_order_metamorphic, quick=1000, thorough=25000, shards_quick=2),
-    SubCheck("sweep_prefix", _sweep_case(), oracle_sweep, quick=800, thorough=20000, shards_quick=2),
+    SubCheck("sweep_prefix", _sweep_case(), oracle_sweep, quick=1600, thorough=40000, shards_quick=3),
     SubCheck("classical", _classical_case(), oracle_classical, quick=1500, thorough=60000, shards_quick=1, shards_thorough=8),
     SubCheck("classical_rejects", st.fixed_dictionaries({"g": G.gate_recipes(lambda f: f.unitary and not f.qudit and "zeroq" not in f.tags)}),
              oracle_classical_rejects, quick=400, thorough=10000, shards_quick=1, shards_thorough=4),
